@@ -179,6 +179,9 @@ def main():
             "source_hygiene_hits": po.get("hygiene_hits", []),
             "leanchecker": po.get("leanchecker", "not run in this tier"),
             "f64_selftest": po.get("f64_selftest", "not applicable to this property"),
+            "names_tables_source": ("go/extract (source translator)" if props.NAMES_SOURCE == "ast" else
+                                    "behavioural probe of the names functions on -130..130 (fallback; claims for integers outside that "
+                                    "range are not covered in this run): " + props.NAMES_NOTE[:300]) if getattr(spec, "needs_extract", False) else "not used",
             "evaluations": outcome.evaluations,
             "distinct_nontrivial": outcome.distinct,
             "rule": outcome.rule,
